@@ -68,7 +68,8 @@ def run(plan):
             w.fire("capabilities_learned_before_apply")
         bodies = {}
         mode = plan.get("mode", "plain")
-        for st in states:
+        prev_full = None
+        for si, st in enumerate(states):
             poll = None
             if mode == "after_refresh":
                 # the device reports some state first (turbo raised in only one of the two vendor flags); the user
@@ -103,6 +104,28 @@ def run(plan):
                         ac.beep = st[k]
                     elif k not in keep:
                         s.set_attr(ac, k, st[k])
+            elif mode == "sparse" and prev_full is not None:
+                # only a few settings are touched since the last apply() (possibly together with a property
+                # setting), after the object has been idle for a while: the command carries the previous request plus
+                # the changes
+                import random as _r
+                rr = _r.Random(repr(sorted(st.items())) + str(si))
+                await asyncio.sleep(rr.choice([0.0, 1.0, 130.0, 4000.0]))
+                changed = rr.sample([k for k in FIELDS], rr.randint(1, 3))
+                if rr.random() < 0.4:
+                    changed = ["aux_mode"]
+                full = dict(prev_full)
+                for k in changed:
+                    full[k] = st[k]
+                    if k == "beep":
+                        ac.beep = st[k]
+                    else:
+                        s.set_attr(ac, k, st[k])
+                if plan.get("with_property") and rr.random() < 0.7:
+                    ac.vertical_swing_angle = w.ns.AC.SwingAngle(rr.choice([1, 25, 50, 75, 100]))
+                    w.fire("property_setting_next_to_state_settings")
+                st = full
+                w.fire("sparse_change_since_last_apply")
             else:
                 if mode == "during_refresh":
                     # a poll is in flight on the same object when the user applies new settings
@@ -163,6 +186,7 @@ def run(plan):
             if body[4:7] != b"\x7f\x7f\x00":
                 res.fail("control command timer bytes differ from 'timers off'", body[4:7].hex())
                 return
+            prev_full = dict(st)
             key = tuple(sorted(st.items()))
             for k2, b2 in bodies.items():
                 if (k2 == key) != (b2 == body):
@@ -248,6 +272,13 @@ def space(tier):
         if r in (0, 3) and rng.random() < 0.4:
             # the unit acknowledges each command with the state it had before executing it
             p["stale_ack"] = True
+        if r == 3 and not p.get("stale_ack"):
+            p["mode"] = "sparse"
+            if rng.random() < 0.6:
+                p["with_property"] = True
+                p["config"] = dict(p["config"], caps_pages=[[[[0x0009, "01"], [0x000A, "01"], [0x0210, "01"], [0x0214, "01"]], None]])
+                p["learn_caps"] = True
+            return p
         if rng.random() < 0.4:
             from .c15 import rand_record
             recs = [rand_record(rng) for _ in range(rng.randint(1, 10))]
